@@ -213,7 +213,7 @@ fn cross_process(e: &Engine, n: usize) {
     // regenerate cases deterministically from the seed, build in-process and
     // in child processes through different front ends
     let exe = std::env::current_exe().expect("current_exe");
-    let dir = format!("{}/work/c15", VERIF_DIR);
+    let dir = format!("{}/work/c15", crate::engine::out_dir());
     let _ = std::fs::create_dir_all(&dir);
     let items: Vec<u64> = (0..n as u64).collect();
     let seed = e.seed;
